@@ -565,7 +565,7 @@ class Machine:
     def _time_pattern(self) -> None:
         inst = self.current_inst
         if inst.param0 == SetOp.INIT:
-            self._reg.time = inst.param1
+            self._reg.time = inst.param1.copy()
         else:
             self._reg.time.union(inst.param1)
 
